@@ -25,6 +25,9 @@ def build():
         if tag == "F-PARKED":
             build_parked(e)
             continue
+        if tag == "F-LONGLINE":
+            build_longline(e)
+            continue
         if tag == "F-EARLY" and prop == "C18":
             build_early_c18(e)
             continue
@@ -85,6 +88,19 @@ def build_early_c18(e):
     with open(os.path.join(VERIF, e["witness"]), "w") as f:
         json.dump(payload, f, indent=1, sort_keys=True)
     print("F-EARLY C18 ->", e["witness"])
+
+
+def build_longline(e):
+    from . import ctl_engine
+    from .ctlsim import CtlSim
+    run = ctl_engine.c18_longline_run(random.Random(3))
+    sim = CtlSim(copy.deepcopy(run), {"C18"}).execute()
+    v = next(v for v in sim.viol if v["oracle"] == "session_exception" and v.get("signature") == "F-LONGLINE")
+    payload = {"property": "C18", "oracle": v["oracle"], "signature": "F-LONGLINE", "msg": v["msg"], "run": run,
+               "digest": sim.digest(), "engine": "ctl", "finding": "F-LONGLINE"}
+    with open(os.path.join(VERIF, e["witness"]), "w") as f:
+        json.dump(payload, f, indent=1, sort_keys=True)
+    print("F-LONGLINE C18 ->", e["witness"])
 
 
 def build_parked(e):
